@@ -1,5 +1,6 @@
 import TapkeeVerif.Proofs.LandmarksEuclid
 import TapkeeVerif.Proofs.LandmarksRatioOne
+import TapkeeVerif.Proofs.LandmarksWitness
 /-!
 # C11 — landmark methods embed landmarks exactly and triangulate the rest consistently
 
@@ -164,6 +165,42 @@ theorem lmds_exact_recovery_partial (δ : Mat N N K) (X : Mat N m K) (lm : Fin n
   simp only [hY, hdiff]
   exact Mmap_isometry δ X lm hn hE V lam s heig hfac hs hl (fun a => wx a - wy a)
 
+/-- non-vacuity of `lmds_exact_recovery_partial`: five collinear samples `1, 1, −1, −1, 3`, the first four are the
+    landmarks, `d = 1`, the solver's exact answer `V = (½, ½, −½, −½)ᵀ`, `λ = 4`, `√λ = 2` -/
+example : ∃ Y, lmdsEmbed Witness.δ Witness.lm Witness.V1 Witness.lam1 Witness.s1 = .ok Y ∧
+    ∀ x y, sqDistRows Y x y = Witness.δ x y * Witness.δ x y :=
+  lmds_exact_recovery_partial Witness.δ Witness.X Witness.lm (by norm_num) (by norm_num) Witness.euclid
+    Witness.V1 Witness.lam1 Witness.s1 Witness.eig1 Witness.fac1 Witness.sqrt1
+    (by intro i; simp [Witness.lam1]) Witness.span
+
+/-- **The full exact-recovery statement is false of the code as it stands** (F-LMDS-RANKDEF).  Same five collinear
+    samples, `target_dimension = 2`: the data have affine dimension `1 ≤ d`, the landmarks affinely span them, and the
+    solver's answer is an exact, orthonormal, complete eigen-system of the landmark matrix — with second eigenvalue
+    `0`.  `triangulate` divides the eigenvectors by the eigenvalues, so the model reaches `divZero`; on the real code the
+    same input yields NaN rows (corpus/C11/f-lmds-rankdef.case). -/
+theorem lmds_exact_recovery_refuted :
+    ¬ ∀ (N nl d m : Nat) (δ : Mat N N ℚ) (X : Mat N m ℚ) (lm : Fin nl → Fin N) (V : Mat nl d ℚ) (lam s : Vec d ℚ),
+        0 < nl → d ≤ nl → IsEuclidean δ X → IsEig (lmdsB δ lm) V lam → IsOrthonormal V →
+        IsFactored (lmdsB δ lm) V lam → IsSqrt s lam →
+        (∀ x, ∃ w : Fin nl → ℚ, ∀ k, X x k - centroid X lm k = ∑ a, w a * Zc X lm a k) →
+        ∃ Y, lmdsEmbed δ lm V lam s = .ok Y ∧ ∀ x y, sqDistRows Y x y = δ x y * δ x y := by
+  intro h
+  obtain ⟨Y, hY, _⟩ := h 5 4 2 1 Witness.δ Witness.X Witness.lm Witness.V2 Witness.lam2 Witness.s2
+    (by norm_num) (by norm_num) Witness.euclid Witness.eig2 Witness.orth2 Witness.fac2 Witness.sqrt2 Witness.span
+  have := ((lmdsEmbed_ok_iff _ _ _ _ _ Y).mp hY).2.1 1
+  exact this (by simp [Witness.lam2])
+
+/-- the model's verdict on the witness, spelled out -/
+theorem lmds_witness_divZero :
+    lmdsEmbed Witness.δ Witness.lm Witness.V2 Witness.lam2 Witness.s2 = .error .divZero := by
+  unfold lmdsEmbed triangulate
+  have h1 : rightColsInBounds 4 2 = true := by decide
+  have h2 : anyZero Witness.lam2 = true := by
+    unfold anyZero
+    rw [List.any_eq_true]
+    exact ⟨1, List.mem_finRange _, by simp [Witness.lam2]⟩
+  simp [h1, h2]
+
 /-- **`landmark_ratio = 1`, Landmark MDS = MDS.**  When every sample is a landmark (`lm` a permutation) and the
     distance is symmetric, the matrix Landmark MDS decomposes is the MDS matrix `mdsPre δ` relabelled by `lm`; reading
     the solver's answer `V'` through the relabelling gives an answer `V` for plain MDS that satisfies the same contract
@@ -215,6 +252,103 @@ theorem lmds_oob_iff (δ : Mat N N K) (lm : Fin nl → Fin N) (V : Mat nl d K) (
     omega
 
 end lmds
+
+/-! ## Landmark Isomap with every sample a landmark -/
+section lisomap
+variable {K : Type} [Field K] [LinearOrder K] [IsStrictOrderedRing K] [DecidableEq K] {N nl d : Nat}
+
+theorem lisomapPost_ok_iff (B : Mat nl N K) (V : Mat nl d K) (q : Vec d K) (E : Mat N d K) :
+    lisomapPost B V q = .ok E ↔ d ≤ nl ∧ (∀ i, q i ≠ 0) ∧ E = lisomapRows B V q := by
+  unfold lisomapPost rightColsInBounds anyZero
+  by_cases hd : d ≤ nl
+  · by_cases hz : ∃ i, q i = 0
+    · have : (List.finRange d).any (fun i => decide (q i = 0)) = true := by
+        simpa [List.any_eq_true] using hz
+      simp only [hd, decide_true, Bool.not_true, Bool.false_eq_true, if_false, this, if_true]
+      constructor
+      · intro h; cases h
+      · rintro ⟨_, hne, _⟩; obtain ⟨i, hi⟩ := hz; exact absurd hi (hne i)
+    · have hz' : ∀ i, q i ≠ 0 := fun i hi => hz ⟨i, hi⟩
+      have : (List.finRange d).any (fun i => decide (q i = 0)) = false := by
+        simpa [List.any_eq_false] using hz'
+      simp only [hd, decide_true, Bool.not_true, Bool.false_eq_true, if_false, this]
+      constructor
+      · intro h; injection h with h; exact ⟨trivial, hz', h.symm⟩
+      · rintro ⟨_, _, rfl⟩; rfl
+  · simp only [hd, decide_false, Bool.not_false, if_true]
+    constructor
+    · intro h; cases h
+    · rintro ⟨h, _⟩; exact h.elim
+
+/-- **`landmark_ratio = 1`, Landmark Isomap = Isomap** (`_partial`).  `G` is the (symmetric) geodesic matrix, `lm` the
+    permutation the shuffle produced, so Landmark Isomap starts from the rows `G (lm k) ·`.  If the directions its solver
+    selected (`V'`, read through the relabelling as `V`) are eigenvectors of the Isomap matrix
+    `isomapPreOfGeodesics G` (Model/Mds.lean) with POSITIVE eigenvalues `μ` (whose squares are the eigenvalues `q⁴` of
+    `B Bᵀ` that were divided out), then Landmark Isomap returns exactly the Isomap embedding `post V s` for that
+    eigen-system, `s = √μ`.
+
+    Full statement (FALSE of the code, F-LISOMAP-NEGEIG): the same without `hpos` — the solver of `B Bᵀ` ranks by `μ²`,
+    so a negative `μ` of large magnitude is selected and embedded as `−√|μ| v`, a direction Isomap discards
+    (replayed on the real code by corpus/C11/f-lisomap-negeig.case). -/
+theorem lisomap_ratio_one_partial (G : Mat N N K) (hsym : ∀ x y, G x y = G y x) (lm : Fin N → Fin N)
+    (hbij : Function.Bijective lm) (V' : Mat N d K) (q μ : Vec d K) (E : Mat N d K)
+    (h : lisomapPost (lisomapPre (fun k j => G (lm k) j)) V' q = .ok E)
+    (V : Mat N d K) (hV : ∀ a, V (lm a) = V' a)
+    (hB : IsEig (isomapPreOfGeodesics G) V μ) (hpos : ∀ i, 0 < μ i)
+    (hq : IsFourthRoot q (fun i => μ i * μ i)) :
+    ∃ s, IsSqrt s μ ∧ E = post V s ∧ mdsEmbed V s = .ok E := by
+  obtain ⟨hd, hq0, rfl⟩ := (lisomapPost_ok_iff _ V' q E).mp h
+  have hq2 : ∀ i, q i * q i = μ i := by
+    intro i
+    have h1 := hq i
+    have h2 : (q i * q i - μ i) * (q i * q i + μ i) = 0 := by ring_nf; ring_nf at h1; linarith
+    have h3 : q i * q i + μ i ≠ 0 := by
+      have : 0 ≤ q i * q i := mul_self_nonneg _
+      have := hpos i
+      intro h0; linarith
+    have := (mul_eq_zero.mp h2).resolve_right h3
+    linarith
+  refine ⟨fun i => μ i / q i, ?_, ?_, ?_⟩
+  · intro i
+    have : q i ≠ 0 := hq0 i
+    rw [div_mul_div_comm, hq2 i]
+    have hμ : μ i ≠ 0 := ne_of_gt (hpos i)
+    field_simp
+  · funext x i
+    unfold lisomapRows post
+    rw [sumFin_eq_sum]
+    have : ∑ a, lisomapPre (fun k j => G (lm k) j) a x * V' a i = μ i * V x i := by
+      simp only [lisomapPre_relabel G hsym lm hbij, ← hV]
+      rw [sum_comp_bij lm hbij (fun y => isomapPreOfGeodesics G y x * V y i)]
+      simp only [isomapPre_symm G hsym _ x]
+      exact isEig_apply hB x i
+    rw [this]
+    ring
+  · have : lisomapRows (lisomapPre fun k j => G (lm k) j) V' q = post V (fun i => μ i / q i) := by
+      funext x i
+      unfold lisomapRows post
+      rw [sumFin_eq_sum]
+      have : ∑ a, lisomapPre (fun k j => G (lm k) j) a x * V' a i = μ i * V x i := by
+        simp only [lisomapPre_relabel G hsym lm hbij, ← hV]
+        rw [sum_comp_bij lm hbij (fun y => isomapPreOfGeodesics G y x * V y i)]
+        simp only [isomapPre_symm G hsym _ x]
+        exact isEig_apply hB x i
+      rw [this]
+      ring
+    rw [this]
+    simp [mdsEmbed, rightColsInBounds, hd]
+
+/-- non-vacuity: four collinear samples `1, 1, −1, −1` (geodesic = distance), `lm = id`, `d = 1`, `V = (1,1,−1,−1)ᵀ`,
+    `μ = 4`, `q = 2` (Proofs/LandmarksWitness.lean) -/
+example : ∃ s : Vec 1 ℚ, IsSqrt s Witness.mu4 ∧
+    lisomapRows (lisomapPre fun k j => Witness.G4 (id k) j) Witness.V4 Witness.q4 = post Witness.V4 s ∧
+    mdsEmbed Witness.V4 s = .ok (lisomapRows (lisomapPre fun k j => Witness.G4 (id k) j) Witness.V4 Witness.q4) :=
+  lisomap_ratio_one_partial Witness.G4 Witness.G4_symm id Function.bijective_id Witness.V4 Witness.q4 Witness.mu4 _
+    ((lisomapPost_ok_iff _ _ _ _).mpr ⟨by norm_num, by intro i; simp [Witness.q4], rfl⟩)
+    Witness.V4 (fun _ => rfl) Witness.eig4 (by intro i; simp [Witness.mu4])
+    (by intro i; simp [Witness.q4, Witness.mu4]; norm_num)
+
+end lisomap
 
 /-- **The validation of both landmark methods does not ensure `d ≤ n_landmarks`** (F-LANDMARK-DIM): `N = 8`,
     `landmark_ratio = 1/2`, `target_dimension = 5` passes `InClosedRange(3/N, 1)` and `InRange(1, N)`, selects
